@@ -74,6 +74,18 @@ def run_case(case):
                             other_ctrls.append(c4)
                         except Exception:  # noqa: BLE001
                             pass
+                    if case.get('disturb') and k % 5 == 3 and '"jitter"' not in json.dumps(case['expr']):
+                        # resume() of a job that is NOT paused: the pending occurrence stays the next run
+                        # ("every occurrence after the job's creation or last resume")
+                        try:
+                            ctrl.resume()
+                        except Exception as e:  # noqa: BLE001
+                            out['error'] = f'resume() of a running job raised {type(e).__name__}: {e}'
+                            break
+                        nr2 = ctrl._job.next_run.timestamp_nanos() if ctrl._job.next_run is not None else None
+                        if nr2 != nr:
+                            step['announced'] = nr2          # the oracle judges what is announced now
+                            nr = nr2 if nr2 is not None else nr
                     if case.get('pre') and nr - clock.ns > 2_000_000:
                         # a wake-up shortly before the occurrence must not start the job
                         clock.set(nr - 1_000_000)
